@@ -32,6 +32,9 @@ func rulesC07(c *Ctx) {
 	// "… when a retry policy encloses the Timeout" / under a hedge: one timeout executor serves concurrent attempts, so
 	// it must keep nothing per attempt on itself
 	c14ConfinementOf(c, "timeout")
+	// "cancelled for everything inside the Timeout" is read through IsCanceled() / Canceled(): they describe the
+	// execution's own context, not the cancel result shared with enclosing scopes
+	c17Flags(c)
 }
 
 func c07Race(c *Ctx) {
